@@ -335,7 +335,8 @@ class FullFrontend(ConstrainedFrontend):
         return self._solver_backend.is_false(e, extra_constraints=extra_constraints, solver=self._get_solver())
 
     def unsat_core(self, extra_constraints: tuple[Bool, ...] = ()) -> Iterable[Bool]:
-        if self.satisfiable(extra_constraints=extra_constraints):
+        # Z3 only has a core after a check of its own on the current solver: do not take the answer from a cache
+        if FullFrontend.satisfiable(self, extra_constraints=extra_constraints):
             # all constraints are satisfied
             return ()
 
